@@ -827,6 +827,7 @@ class Machine:
         else:
             self.stack.append(path)
             self.stats['fn_interp'] += 1
+            self.__dict__.setdefault('interpreted', set()).add(path)
             res = self.run_body(path, b['mir'], argvals, g, memo)
             self.stack.pop()
             out = list(dict.fromkeys(res))
@@ -1769,18 +1770,30 @@ def run_mode(F, mode, cache_key=None):
     """run (or load) the analysis in one configuration mode; returns a plain dict"""
     from . import extract
     cpath = None
+    ckpath = None
+    keyset = None
     if cache_key:
         import hashlib
         here = os.path.dirname(os.path.abspath(__file__))
         src = b''.join(open(os.path.join(here, f), 'rb').read() for f in ('e1.py', 'facts.py'))
         hh = hashlib.sha1(src).hexdigest()[:10]
         cpath = os.path.join(extract.CACHE, 'e1-%s-%s-%s.pkl' % (cache_key, mode, hh))
-        if os.path.exists(cpath):
-            try:
-                with open(cpath, 'rb') as fh:
-                    return pickle.load(fh)
-            except Exception:
-                pass
+        # results are shared between trees whose interpreted part is identical (same MIR, spans included, of every function the
+        # interpreter can enter; same discovered configuration): a change elsewhere in the crate cannot change the outcome
+        try:
+            ck, keyset = _content_key(F)
+            ckpath = os.path.join(extract.CACHE, 'e1c-%s-%s-%s.pkl' % (ck, mode, hh))
+        except Exception:
+            ckpath = None
+        for pth in (cpath, ckpath):
+            if pth and os.path.exists(pth):
+                try:
+                    with open(pth, 'rb') as fh:
+                        got = pickle.load(fh)
+                    os.utime(pth, None)
+                    return got
+                except Exception:
+                    pass
     if mode == 'P':
         base = run_mode(F, 'N', cache_key)
         m = Machine(F, passthrough=True, grammar=False)
@@ -1804,11 +1817,44 @@ def run_mode(F, mode, cache_key=None):
         'consume': m.consume,
     }
     if cpath:
-        tmp = cpath + '.%d.tmp' % os.getpid()
+        # the shared (content-keyed) slot is used only if the run stayed inside the functions the key covers
+        target = ckpath if (ckpath and keyset is not None and getattr(m, 'interpreted', set()) <= keyset) else cpath
+        tmp = target + '.%d.tmp' % os.getpid()
         with open(tmp, 'wb') as fh:
             pickle.dump(out, fh)
-        os.replace(tmp, cpath)
+        os.replace(tmp, target)
+        try:
+            olds = sorted((f for f in os.listdir(extract.CACHE) if f.startswith('e1c-') and f.endswith('.pkl')),
+                          key=lambda f: os.path.getmtime(os.path.join(extract.CACHE, f)))
+            for f in olds[:-400]:
+                os.remove(os.path.join(extract.CACHE, f))
+        except OSError:
+            pass
     return out
+
+
+def _content_key(F):
+    """(hash, set of function paths) over everything a run of the interpreter can depend on: the MIR of every function it may enter
+    (those touching the state machine / painter, the writer sinks, the line-predicate functions, and their closures), the discovered
+    configuration, and the type tables"""
+    import hashlib
+    import json
+    if getattr(F, '_e1_content_key', None):
+        return F._e1_content_key
+    m = Machine(F)
+    fns = set(m.RELEVANT) | set(m.writer_fns) | set(m.PATTERN_FNS) | set(m.HLH) | set(m.COMPOSERS) | set(m.DISPATCHERS)
+    fns |= {p for p in m.BODIES if '::{closure' in p and p.split('::{closure')[0] in fns}
+    fns = {p for p in fns if p in m.BODIES}
+    h = hashlib.sha1()
+    for p in sorted(fns):
+        h.update(p.encode())
+        h.update(json.dumps(m.BODIES[p], sort_keys=True, default=str).encode())
+    cfg = {'classes': [str(c) for c in m.CLASSES], 'lits': sorted(map(str, m.LITS)) if hasattr(m, 'LITS') else [], 'consume': m.consume,
+           'sets': {k: sorted(getattr(m, k)) for k in ('RELEVANT', 'HLH', 'COMPOSERS', 'ARGCOMP', 'DISPATCHERS', 'PATTERN_FNS', 'CORE') if hasattr(m, k)},
+           'writer_fns': sorted(m.writer_fns), 'adts': F.adts}
+    h.update(json.dumps(cfg, sort_keys=True, default=str).encode())
+    F._e1_content_key = (h.hexdigest()[:20], fns)
+    return F._e1_content_key
 
 
 if __name__ == '__main__':
